@@ -81,6 +81,10 @@ type SeataV1PackageHeader struct {
 }
 
 func (p *RpcPackageHandler) Read(ss getty.Session, data []byte) (interface{}, int, error) {
+	if len(data) < Seatav1HeaderLength {
+		// the fixed header has not arrived completely yet: need more data
+		return nil, 0, nil
+	}
 	in := bytes.NewByteBuffer(data)
 
 	header := SeataV1PackageHeader{}
